@@ -203,7 +203,9 @@ class Engine:
         self.second_solver_rate=int(os.environ.get('VERIF_SECOND_SOLVER_RATE','0') or 0)
         t=time.time()
         self.bodies,self.nst,errs,errsamples=parse_file(mirpath)
-        if errs: raise Unsupported('MIR parse errors: %r'%(errsamples,))
+        # statements the parser does not understand are kept as ('unparsed', text): executing one is Unsupported, their mere presence
+        # (e.g. the thread-local plumbing std generates, which the models below bypass) is not
+        self.parse_errors=dict(errsamples)
         self.src=SrcIndex(repo)
         self.parse_s=time.time()-t
         self.by_name=collections.defaultdict(list)
@@ -428,6 +430,7 @@ class Engine:
                     if k=='assign':
                         self.place_ref(run,locs,st[1],body).set(self.rvalue(run,locs,st[2],body))
                     elif k=='noop' or k=='nop': pass
+                    elif k=='unparsed': raise Unsupported('MIR statement not understood by the parser: '+str(st[1])[:100])
                     elif k=='call':
                         _,lhs,func,aops,tg=st
                         argv=[self.operand(run,locs,a,body) for a in aops]
@@ -593,7 +596,14 @@ class Engine:
             st=_p.ALLOC_STATICS.get(m.group(1))
             if st:
                 nm=st.split('::')[-1]; stt=run.ghost.setdefault('statics',{})
-                if 'alloc:'+nm not in stt: stt['alloc:'+nm]=Ref(Cell(Opaque('static:'+nm)))       # one cell per static per run
+                if 'alloc:'+nm not in stt:       # one cell per static per run
+                    cands=self.const_index.get(nm,[])
+                    if len(cands)==1 and cands[0].kind=='const' and (getattr(cands[0],'header','') or '').startswith('static '):
+                        # a static of this crate: its initialiser is in the dump (e.g. `static CACHE: Mutex<..> = Mutex::new(None)`)
+                        v=self.eval_const(run,cands[0])
+                        if isinstance(v,Opaque): v=Opaque(v.kind,None if isinstance(v.p,dict) else v.p)
+                        stt['alloc:'+nm]=Ref(Cell(v))
+                    else: stt['alloc:'+nm]=Ref(Cell(Opaque('static:'+nm)))       # a static of another crate (e.g. ring's algorithm constants)
                 return stt['alloc:'+nm]
         mlit=re.match(r'^(.*?)\s*\{\{(.*)\}\}$',s)
         if mlit:
@@ -621,6 +631,10 @@ class Engine:
         return Opaque('const:'+s)
 
     def eval_const(self,run,b):
+        hdr=getattr(b,'header','') or ''
+        if b.kind=='const' and re.search(r':\s*(std::thread::)?LocalKey<',hdr):
+            # a `thread_local!` key: identified by its name; the value lives in the per-run static store (one thread per run)
+            return Opaque('LocalKey',{'name':b.name})
         v=self.call_fn(run,b,[])
         return v
 
